@@ -41,6 +41,7 @@ import (
 	"os"
 	"strings"
 	"sync"
+	"sync/atomic"
 	"testing"
 	"testing/synctest"
 	"time"
@@ -103,12 +104,18 @@ type pxConn struct {
 	name string
 	l    *link
 	wmu  sync.Mutex // serialises the peer's writers: PeerWrite order = queue order
+	deaf atomic.Bool // the connection's Read ignores its context (a blocking net.Conn framing does): only a failure of the link ends it
 }
 
 // proxy end: handed to AddClient / returned by newConnection
 type pxProxyEnd struct{ c *pxConn }
 
-func (e pxProxyEnd) Read(ctx context.Context) (*goat.Rpc, error) { return e.c.l.srv.Read(ctx) }
+func (e pxProxyEnd) Read(ctx context.Context) (*goat.Rpc, error) {
+	if e.c.deaf.Load() {
+		return e.c.l.srv.Read(context.Background())
+	}
+	return e.c.l.srv.Read(ctx)
+}
 func (e pxProxyEnd) Write(ctx context.Context, r *goat.Rpc) error {
 	err := e.c.l.srv.Write(ctx, r)
 	if err == nil {
@@ -188,8 +195,11 @@ func (rt *pxRt) newConn(name string, hn int) *pxConn {
 	return c
 }
 
-func (rt *pxRt) attach(name string, hn int) *pxConn {
+func (rt *pxRt) attach(name string, hn int, deaf ...bool) *pxConn {
 	c := rt.newConn(name, hn)
+	if len(deaf) > 0 && deaf[0] {
+		c.deaf.Store(true)
+	}
 	e := ev("Attach")
 	e.K, e.N = name, hn
 	tr.emit(e)
@@ -332,7 +342,7 @@ func (rt *pxRt) srvName(s *goat.Server) string {
 func (rt *pxRt) step(st pxStep) {
 	switch st.Op {
 	case "attach":
-		c := rt.attach(st.Name, st.Conn)
+		c := rt.attach(st.Name, st.Conn, st.What == "deaf")
 		if rt.sc.Mode == "rpc" { // a server (re)starts and attaches again under its name
 			for _, s := range rt.srvs {
 				if rt.srvName(s) == st.Name {
@@ -403,6 +413,9 @@ func (rt *pxRt) step(st pxStep) {
 		case "rfail":
 			c.l.c2s.with(func() { tr.emit(e); c.l.c2s.rerr = errInjected })
 		case "wfail":
+			c.l.s2c.with(func() { tr.emit(e); c.l.s2c.werr = errInjected })
+		case "wfaildeaf": // writes fail while the reader sits in a Read that does not look at its context (attach ... deaf)
+			e.K = "wfail"
 			c.l.s2c.with(func() { tr.emit(e); c.l.s2c.werr = errInjected })
 		case "rfailctx": // the same failures with errors that wrap a context error (a websocket bound to a request context ...)
 			e.K = "rfail"
